@@ -988,6 +988,141 @@ def cross_solver_sampled(n_inst, seed, kinds):
     return out
 
 
+# ------------------------------------------------------------------------------ display / log / params
+
+def _digest(v):
+    """order-preserving structural digest of whatever an interface handed to its solver (symbols by name)"""
+    if isinstance(v, dict):
+        return {k: _digest(x) for k, x in sorted(v.items(), key=lambda kv: str(kv[0]))}
+    if isinstance(v, (list, tuple)):
+        return [_digest(x) for x in v]
+    if isinstance(v, np.ndarray):
+        return [_digest(x) for x in v.reshape(-1).tolist()] + [list(v.shape)]
+    if hasattr(v, "toarray") or hasattr(v, "todense") or type(v).__name__ == "ShimCSR":
+        return _digest(np.asarray(views.dense(v), dtype=object))
+    if isinstance(v, (LinExpr, GLin)):
+        return _digest(v.terms) if not hasattr(v, "const") else [_digest(v.terms), str(v.const)]
+    if isinstance(v, GQuad):
+        return [[str(k), i, j] for k, i, j in v.terms]
+    if isinstance(v, (FVar, GMVar)):
+        return [str(getattr(v, a, None)) for a in ("idx", "n", "lb", "ub", "integer", "vtype")]
+    if isinstance(v, Rec) or v is None or isinstance(v, (str, bool, int)):
+        return str(v) if not isinstance(v, Rec) else "rec"
+    if hasattr(v, "lb") and hasattr(v, "ub"):
+        return [_digest(v.lb), _digest(v.ub), _digest(getattr(v, "A", None))]
+    return str(v)
+
+
+def settings_cases():
+    """display / log switches and a parameter dictionary change what is printed and which options the solver gets --
+    never the program that is handed over, nor the status handling"""
+    import contextlib
+    import io
+    import time as _time
+    out = []
+    try:
+        import rsome.grb_solver as grb_mod
+    except Exception:
+        grb_mod = None
+
+    def record(which, F, c, display, log, params):
+        buf = io.StringIO()
+        real_sleep = _time.sleep
+        _time.sleep = lambda *_a: None
+        try:
+            with contextlib.redirect_stdout(buf):
+                if which in ("lp", "milp"):
+                    fake = FakeOptLP(c, 0) if which == "lp" else FakeOptMILP(0)
+                    real, lp.opt = lp.opt, fake
+                    try:
+                        sol = lp.def_sol(F, display=display, log=log, params=params)
+                    finally:
+                        lp.opt = real
+                    rec = fake.calls
+                elif which == "ecos":
+                    fake = FakeEcos(c, 0)
+                    real, eco_mod.ecos = eco_mod.ecos, fake
+                    try:
+                        sol = eco_mod.solve(F, display=display, log=log, params=params)
+                    finally:
+                        eco_mod.ecos = real
+                    rec = fake.calls
+                elif which == "ort":
+                    fake = FakePywraplp(0)
+                    real, ort_mod.pywraplp = ort_mod.pywraplp, fake
+                    try:
+                        sol = ort_mod.solve(F, display=display, log=log, params=params)
+                    finally:
+                        ort_mod.pywraplp = real
+                    s0 = fake.created[0]
+                    rec = [s0.name, s0.vars, s0.cons, s0.obj]
+                else:
+                    fake = FakeGp(c, 2)
+                    real, grb_mod.gp = grb_mod.gp, fake
+                    try:
+                        sol = grb_mod.solve(F, display=display, log=log, params=params)
+                    finally:
+                        grb_mod.gp = real
+                    g = fake.made[0]
+                    rec = [g.mvars, g.mcons, g.qcons, g.obj, {k: v for k, v in g.params.items() if k != "LogToConsole"}]
+        finally:
+            _time.sleep = real_sleep
+        return _digest(rec), (sol.x is not None, str(type(sol.objval).__name__))
+
+    cases = [("lp", None, {}), ("milp", "BI", {}), ("ecos", None, {}), ("ecos", "IC", {}), ("ort", None, {}), ("ort", "BC", {})]
+    if grb_mod is not None:
+        cases += [("grb", None, {}), ("grb", "CI", {"TimeLimit": 10})]
+    for which, vt, params in cases:
+        def setup(c, which=which, vt=vt):
+            if which == "milp":
+                A = lp.csr_matrix(np.array([[1.0, 2.0], [3.0, -1.0]]))
+                F = lp.LinProg(A, np.array([4.0, 5.0]), np.array([0.0, 1.0]), np.array(list(vt)), np.array([1.0, 2.0]), np.array([-1.0, 0.0]), np.array([1.0, -2.0]))
+            else:
+                F = sym_formula(c, 2, 2, (0, 1), ("lb", "box"), vt)
+                if which in ("lp", "ort", "grb"):
+                    F = lp.LinProg(F.linear, F.const, F.sense, F.vtype, F.ub, F.lb, F.obj)
+            return {"F": F, "c": c, "before": D.snapshot_prog(F)}
+
+        def call(ns, which=which, params=params):
+            quiet = record(which, ns["F"], ns["c"], False, False, {})
+            loud = record(which, ns["F"], ns["c"], True, True, params)
+            return quiet, loud
+
+        def same(ns, res, params=params):
+            (r1, o1), (r2, o2) = res
+            if params:                      # the parameters reach the solver and nothing else changes
+                r2 = list(r2)
+                got = r2[-1] if isinstance(r2[-1], dict) else None
+                if got is None or {k: str(v) for k, v in params.items()} != {k: v for k, v in got.items()}:
+                    return False
+                r2[-1] = {}
+                r1 = list(r1)
+                r1[-1] = {}
+            return r1 == r2 and o1 == o2
+        obs, _ = check_function({"lp": "rsome.lp:def_sol", "milp": "rsome.lp:def_sol", "ecos": "rsome.eco_solver:solve", "ort": "rsome.ort_solver:solve",
+                                 "grb": "rsome.grb_solver:solve"}[which], setup, call,
+                                [post("display-log-params-do-not-change-the-program-or-the-status-handling", same),
+                                 post("formula-untouched", lambda ns, res: D.prog_unchanged(ns["before"], ns["F"]))],
+                                mode="D", label=f"{which},vtype={vt},params={params}", bounded=True, replay=None)
+        out += obs
+    if grb_mod is not None:
+        def setup_bad(c):
+            F = sym_formula(c, 2, 2, (0, 1), ("lb", "box"))
+            return {"F": lp.LinProg(F.linear, F.const, F.sense, F.vtype, F.ub, F.lb, F.obj), "fake": FakeGp(c, 2)}
+
+        def call_bad(ns):
+            real, grb_mod.gp = grb_mod.gp, ns["fake"]
+            try:
+                return grb_mod.solve(ns["F"], display=False, params={"NoSuchParameter": 1})
+            finally:
+                grb_mod.gp = real
+        from ..engine import always_raises
+        obs, _ = check_function("rsome.grb_solver:solve", setup_bad, call_bad, [always_raises("unknown-parameter-is-rejected", (ValueError, AttributeError))],
+                                mode="D", label="params={'NoSuchParameter': 1}", bounded=True)
+        out += obs
+    return out
+
+
 class _ProgView:
     """The compiled program with binaries read as integers in [max(lb,0), min(ub,1)] (their meaning)."""
 
@@ -1022,7 +1157,7 @@ def _mn(a, b):
 def plumbing():
     out = []
     for front in ("ro", "dro"):
-        for good in (True, False):
+        for good in (True, False, None):                      # None: the interface hands back no Solution object at all
             def setup(c, front=front, good=good):
                 from ..harness import dro
                 m = ro.Model() if front == "ro" else dro.Model(2)
@@ -1036,6 +1171,8 @@ def plumbing():
                     def solve(formula, display=True, log=False, params={}):
                         seen.append(formula)
                         n = formula.linear.shape[1]
+                        if good is None:
+                            return None
                         return lp.Solution("rec", 1.5 if good else float("nan"), np.ones(n) if good else None, 0 if good else 3, 0.0)
                 return {"m": m, "S": S, "seen": seen, "good": good}
 
@@ -1057,7 +1194,7 @@ def plumbing():
             obs, _ = check_function(f"rsome.{front}:Model.solve", setup, call,
                                     [post("the-compiled-program-is-what-the-interface-receives", handed_over),
                                      post("failure-is-reported-not-fabricated", reported)], mode="D",
-                                    label=f"{front},{'optimal' if good else 'failed'}", bounded=True, replay=None)
+                                    label=f"{front},{'optimal' if good else 'failed' if good is False else 'no Solution object'}", bounded=True, replay=None)
             out += obs
     return out
 
@@ -1066,10 +1203,10 @@ def jobs(tier):
     seed = int(os.environ.get("VERIF_SEED", "0") or 0)
     n = 12 if tier == "quick" else 150
     return [{"name": f"cross-solver-{k}", "kind": "cross", "kinds": [k], "n": n, "seed": seed} for k in ("lp", "milp", "socp", "exp")] + [{"name": "def_sol-lp", "kind": "lp"}, {"name": "def_sol-milp", "kind": "milp"}, {"name": "ecos", "kind": "ecos"},
-            {"name": "ortools", "kind": "ort"}, {"name": "gurobi", "kind": "grb"}, {"name": "cone-heads", "kind": "heads"}, {"name": "plumbing", "kind": "plumbing"}]
+            {"name": "ortools", "kind": "ort"}, {"name": "gurobi", "kind": "grb"}, {"name": "cone-heads", "kind": "heads"}, {"name": "plumbing", "kind": "plumbing"}, {"name": "settings", "kind": "settings"}]
 
 
 def run_job(job):
     if job["kind"] == "cross":
         return cross_solver_sampled(job["n"], job["seed"], job["kinds"])
-    return {"lp": def_sol_lp, "milp": def_sol_milp, "ecos": ecos_cases, "ort": ortools_cases, "grb": gurobi_cases, "heads": cone_heads, "plumbing": plumbing}[job["kind"]]()
+    return {"lp": def_sol_lp, "milp": def_sol_milp, "ecos": ecos_cases, "ort": ortools_cases, "grb": gurobi_cases, "heads": cone_heads, "settings": settings_cases, "plumbing": plumbing}[job["kind"]]()
